@@ -153,12 +153,12 @@ Proof.
     destruct (group1 a Ha) as (L1 & L2 & E1).
     cbn [b64_encode b64_decode_quanta].
     rewrite (b64_val_char _ L1), (b64_val_char _ L2).
-    rewrite N.eqb_refl. f_equal. f_equal. exact E1.
+    rewrite N.eqb_refl. cbn [b64_after_pad]. f_equal. f_equal. exact E1.
   - inversion Hs as [|? ? Ha Hs']; subst. inversion Hs' as [|? ? Hb _]; subst. unfold is_byte in Ha, Hb.
     destruct (group2 a b Ha Hb) as (L1 & L2 & L3 & E1 & E2).
     cbn [b64_encode b64_decode_quanta].
     rewrite (b64_val_char _ L1), (b64_val_char _ L2), (b64_val_char _ L3).
-    rewrite (proj2 (b64_char_plain _ L3)). rewrite N.eqb_refl.
+    rewrite (proj2 (b64_char_plain _ L3)). rewrite N.eqb_refl. cbv zeta. cbn [b64_after_pad].
     f_equal. f_equal; [exact E1|]. f_equal. exact E2.
   - inversion Hs as [|? ? Ha Hs1]; subst. inversion Hs1 as [|? ? Hb Hs2]; subst.
     inversion Hs2 as [|? ? Hc Hr]; subst. unfold is_byte in Ha, Hb, Hc.
